@@ -4,7 +4,8 @@
    truth value or an error); `inexact` is float/complex arithmetic (C07's subject).  Both are
    universally quantified. *)
 From Coq Require Import ZArith NArith List Bool.
-From NV Require Import Common.Outcome Lang.Types Lang.Types_proofs Lang.Pattern Lang.Pattern_proofs.
+From NV Require Import Common.Outcome Lang.Types Lang.Types_proofs Lang.Pattern Lang.PatternSpec Lang.Store
+  Lang.Pattern_proofs Lang.Pattern_proofs2 Lang.Pattern_proofs3 Lang.Store_proofs.
 Import ListNotations.
 
 (* binding a value to a pattern never panics, whatever the pattern, value, mode and store:
@@ -36,8 +37,140 @@ Theorem C12_is_type_exact : forall (sat : N -> val -> outcome bool) (t : ty) (v 
 Proof. exact is_type_exact. Qed.
 Print Assumptions C12_is_type_exact.
 
+(* ---- sequence patterns.  `rec` is the matcher used for the items (any function: in assign it is
+   assign itself with less fuel), so these are statements about the sequence engine alone. *)
+
+(* no splat, no default: equal lengths are needed, items then pair up in order; on a mismatch the
+   result is a value error and nothing at all has been bound *)
+Theorem C12_seq_equal_length : forall (rec : pat -> option ty -> val -> store -> res) ps rt rhs s,
+  forallb plain ps = true ->
+  assign_all rec ps rt rhs s =
+    if Nat.eqb (length ps) (length rhs) then zip_assign rec ps rt rhs s else (s, Err EValue).
+Proof. exact seq_plain. Qed.
+Print Assumptions C12_seq_equal_length.
+
+(* one splat absorbs the difference (possibly nothing); too few items: value error, nothing bound *)
+Theorem C12_seq_one_splat : forall (rec : pat -> option ty -> val -> store -> res) front sp back rt rhs s,
+  forallb plain front = true -> is_splat sp = true -> forallb plain back = true ->
+  assign_all rec (front ++ sp :: back) rt rhs s =
+    let nf := length front in let nb := length back in let n := length rhs in
+    if (n <? nf + nb)%nat then (s, Err EValue)
+    else
+      andthen (zip_assign rec front rt (firstn nf rhs) s) (fun s1 =>
+      andthen (assign_splat rec sp rt (skipn nf (firstn (n - nb) rhs)) s1) (fun s2 =>
+      zip_assign rec back rt (skipn (n - nb) rhs) s2)).
+Proof. exact seq_one_splat. Qed.
+Print Assumptions C12_seq_one_splat.
+
+(* defaults fill missing trailing items *)
+Theorem C12_seq_defaults : forall (rec : pat -> option ty -> val -> store -> res) req ods rt rhs s,
+  forallb plain req = true ->
+  assign_all rec (req ++ map mkdef ods) rt rhs s =
+    let n := length rhs in
+    if (length req <=? n)%nat && (n <=? length req + length ods)%nat
+    then zip_assign rec (req ++ map mkdef ods) rt (rhs ++ skipn (n - length req) (map snd ods)) s
+    else (s, Err EValue).
+Proof. exact seq_defaults. Qed.
+Print Assumptions C12_seq_defaults.
+
+(* literals match by == and bind nothing; `or` takes the first alternative that succeeds (the
+   second is tried only when the first raised); `and` binds both against the same value *)
+Theorem C12_literal_or_and : forall (sat : N -> val -> outcome bool) (inexact : iop -> num -> num -> num)
+  fuel a b l rt v s,
+  assign sat inexact (S fuel) (PLit l) rt v s = (s, if veq l v then Ok tt else Err EType) /\
+  assign sat inexact (S fuel) (POr a b) rt v s =
+    match assign sat inexact fuel a rt v s with
+    | (s1, Ok _) => (s1, Ok tt)
+    | (s1, Err _) => assign sat inexact fuel b rt v s1
+    | (s1, e) => (s1, e)
+    end /\
+  assign sat inexact (S fuel) (PAnd a b) rt v s =
+    andthen (assign sat inexact fuel a rt v s) (assign sat inexact fuel b rt v).
+Proof. intros. split; [apply assign_lit|split; reflexivity]. Qed.
+Print Assumptions C12_literal_or_and.
+
+(* ---- switch / catch *)
+Theorem C12_switch_first_match : forall (sat : N -> val -> outcome bool) (inexact : iop -> num -> num -> num)
+  arms v i s,
+  switch sat inexact arms v = Ok (i, s) ->
+  (i < length arms)%nat /\
+  assign_top sat inexact (nth i arms PWild) (Some TAny) v [] = (s, Ok tt) /\
+  forall j, (j < i)%nat -> exists s' c, assign_top sat inexact (nth j arms PWild) (Some TAny) v [] = (s', Err c).
+Proof. exact switch_first_match. Qed.
+Print Assumptions C12_switch_first_match.
+
+Theorem C12_switch_takes_first : forall (sat : N -> val -> outcome bool) (inexact : iop -> num -> num -> num)
+  arms v j s,
+  (j < length arms)%nat ->
+  assign_top sat inexact (nth j arms PWild) (Some TAny) v [] = (s, Ok tt) ->
+  (forall j', (j' < j)%nat -> exists s' c, assign_top sat inexact (nth j' arms PWild) (Some TAny) v [] = (s', Err c)) ->
+  switch sat inexact arms v = Ok (j, s).
+Proof. exact switch_takes_first. Qed.
+Print Assumptions C12_switch_takes_first.
+
+Theorem C12_switch_no_match_raises : forall (sat : N -> val -> outcome bool) (inexact : iop -> num -> num -> num)
+  arms v,
+  (forall p, In p arms -> exists s' c, assign_top sat inexact p (Some TAny) v [] = (s', Err c)) ->
+  switch sat inexact arms v = Err EValue.
+Proof. exact switch_no_match_raises. Qed.
+Print Assumptions C12_switch_no_match_raises.
+
+Theorem C12_switch_total : forall (sat : N -> val -> outcome bool) (inexact : iop -> num -> num -> num),
+  (forall pid v, sat pid v <> Panic) -> (forall pid v, sat pid v <> OutOfFuel) ->
+  forall arms v, switch sat inexact arms v <> Panic /\ switch sat inexact arms v <> OutOfFuel.
+Proof. exact switch_total. Qed.
+Print Assumptions C12_switch_total.
+
+(* ---- annotations *)
+(* every write a match performs is checked against the declared type of the variable it writes:
+   whatever the outcome (a failed match keeps the writes it made), a declared type never changes
+   and a value changes only to a value of that type *)
+Theorem C12_write_is_checked : forall (sat : N -> val -> outcome bool) (inexact : iop -> num -> num -> num)
+  fuel p rt v s x T w,
+  lookup s x = Some (T, w) ->
+  exists w', lookup (fst (assign sat inexact fuel p rt v s)) x = Some (T, w') /\
+             (w' = w \/ is_type sat T w' = Ok true).
+Proof. intros. eapply assign_Rty; eauto. Qed.
+Print Assumptions C12_write_is_checked.
+
+(* no statement changes a declared type, whether it completes or raises *)
+Theorem C12_stmt_keeps_types : forall (sat : N -> val -> outcome bool) (inexact : iop -> num -> num -> num)
+  (binop : N -> val -> val -> outcome val) st s x T w,
+  lookup s x = Some (T, w) ->
+  exists w', lookup (fst (run_stmt sat inexact binop st s)) x = Some (T, w').
+Proof. intros. eapply stmt_keeps_types; eauto. Qed.
+Print Assumptions C12_stmt_keeps_types.
+
+(* assignment, destructuring, op-assignment, every-assignment, every-op-assignment, swap, indexed
+   assignment: when the statement completes, every variable it writes holds a value of its
+   declared type (`binop` is the operator of an op-assignment: any function) *)
+Theorem C12_stmt_establishes : forall (sat : N -> val -> outcome bool) (inexact : iop -> num -> num -> num)
+  (binop : N -> val -> val -> outcome val) st s s' x T w,
+  run_stmt sat inexact binop st s = (s', Ok tt) -> In x (writes st) -> lookup s x = Some (T, w) ->
+  exists w', lookup s' x = Some (T, w') /\ is_type sat T w' = Ok true.
+Proof. intros. eapply stmt_establishes; eauto. Qed.
+Print Assumptions C12_stmt_establishes.
+
+(* the invariant over histories of any length: x keeps its declared type T throughout, and after
+   each statement that writes x and returns without raising, `x is T` *)
+Theorem C12_annotation_invariant : forall (sat : N -> val -> outcome bool) (inexact : iop -> num -> num -> num)
+  (binop : N -> val -> val -> outcome val) sts s0 x T w0,
+  lookup s0 x = Some (T, w0) ->
+  Forall (fun step => match step with (st, s', o) =>
+            (exists w', lookup s' x = Some (T, w')) /\
+            (o = Ok tt -> In x (writes st) -> exists w', lookup s' x = Some (T, w') /\ is_type sat T w' = Ok true)
+          end) (run_hist sat inexact binop sts s0).
+Proof. exact annotation_invariant. Qed.
+Print Assumptions C12_annotation_invariant.
+
 Example C12_nonvacuous :
   assign_top sat_none inexact_nan (PSeq [PVar 1; PSplat (PVar 2); PVar 3] false) (Some TAny) (VList [vint 1; vint 2]) [] =
     ([(3%N, (TAny, vint 2)); (2%N, (TAny, VList [])); (1%N, (TAny, vint 1))], Ok tt) /\
-  is_type sat_none TRational (VNum (NRat 1 2)) = Ok true.
-Proof. split; vm_compute; reflexivity. Qed.
+  is_type sat_none TRational (VNum (NRat 1 2)) = Ok true /\
+  (* x : int = 5; x += "a" raises and leaves null; x = 7 completes and re-establishes the type *)
+  map (fun step => snd step) (run_hist sat_none inexact_nan (binop_std inexact_nan)
+      [SDeclare (PAnn (PVar 0) (Some (VType TInt))) (vint 5); SOpAssign 0 0 (VStr [97%N]); SAssign (PVar 0) (vint 7)] []) =
+    [Ok tt; Err EArg; Ok tt] /\
+  switch sat_none inexact_nan [PLit (vint 1); PSeq [PVar 0; PVar 1] false; PWild] (VList [vint 3; vint 4]) =
+    Ok (1%nat, [(1%N, (TAny, vint 4)); (0%N, (TAny, vint 3))]).
+Proof. repeat split; vm_compute; reflexivity. Qed.
